@@ -67,6 +67,49 @@ CLAIMED = {
   note="Trusted: Lean kernel; identities abstracted to numbers (IdentityProvider::identity); the resumption-PSK binding itself is cryptographic (C18/C13). Parameter-change "
        "paths are proved on the model but only the unchanged-parameter path is exercised on the implementation.",
   ref="DESIGN.md §4 C17"),
+ "C04": dict(
+  technique="Lean 4 proof (atomicity of well-ordered step lists) instantiated by `decide` at step lists GENERATED from the Rust source by a translator + rejection / fault sweeps with full-state comparison",
+  text="Theorem MlsVerif.Props.C04.atomic: for every fault plan and state, a step list in which no fallible step follows a mutation returns an error only with the "
+       "state untouched (and retry_same). tools/translate.py regenerates on every run, from the current Rust source, the ordered may-fail / mutates step lists of "
+       "update_key_schedule, Group::apply_update_path, apply_detached_commit, apply_pending_commit, process_commit, state_repo insert, CiphertextProcessor::open; the "
+       "per-operation theorems are `by decide` over those generated lists, so moving an assignment to self in front of a `?` breaks a proof obligation. "
+       "For CiphertextProcessor::open (and the composite encrypted-commit path) the full statement is false on the current tree: machine-checked negation + counterexample "
+       "(known findings F8, F8b). Failing-input search / second tie: ~12k mutated, replayed, spliced, insider-re-signed messages and every identity/storage/PSK provider "
+       "fault per operation on real receivers with every state component compared before/after, the genuine follow-up and peer acceptance.",
+  note="Trusted: Lean kernel; tools/translate.py (statement-level extraction; table MUTATING_CALLS of callees that mutate behind a call); the harness. Recorded known findings "
+       "(known_findings.json): F8 corrupted ciphertext consumes the ratchet key, F8b encrypted commit rejected after decryption consumes the handshake key. Crypto-provider faults not injected.",
+  ref="DESIGN.md §4 C04/C15"),
+ "C15": dict(
+  technique="Lean 4 proof (repository model: write-fault retry reaches the fault-free history; generated step lists atomic) + storage fault sweep on real members",
+  text="Theorems MlsVerif.Props.C15: over the repository model with both back ends and any fault flags, a failed write_to_storage followed by a retry (also two failures) stores "
+       "every epoch exactly once and ends with the fault-free stored history (write_retry_same_history, write_retry_many, write_accounts_every_epoch); machine-checked "
+       "documentation of the repaired defect (old_write_duplicates). Over the GENERATED step lists: write_prefix_atomic, write_clears_before_kp_deletion, and atomicity of "
+       "apply_pending_commit / apply_detached_commit / update_key_schedule / state_repo insert. Tie: translator + a sweep that fails every storage / key-package / PSK-store call "
+       "of process / apply / build / join / write once (thorough: twice) on real members with in-memory and SQLite storage, comparing state, stored snapshot, stored epoch "
+       "records (incl. the id inside each record) and key-package store with the fault-free run.",
+  note="Trusted: Lean kernel, translator, harness. A storage write that succeeded before a later call failed cannot be undone: the pending-insert list is compared jointly with the "
+       "storage (each epoch stored or pending, never both). SQLite transaction atomicity and crashes inside a provider are assumptions.",
+  ref="DESIGN.md §4 C04/C15"),
+ "C06": dict(
+  technique="Lean 4 proof (repository + two storage back ends: invariant for all op sequences, back ends bisimilar, load = last write) + write/reload/crash scenarios on both real providers replayed on the model",
+  text="Theorems MlsVerif.Props.C06: the contiguity invariant holds for every op sequence (inv_reachable); the in-memory store's index arithmetic equals keyed lookup under it "
+       "(mem_get_eq_keyed, with the decide'd counterexample without contiguity); the in-memory and SQLite back ends give equal observations for every op sequence "
+       "(backends_bisimilar); loading returns the stored state of the last write whatever happened after it (load_returns_last_write). Tie: subjects on both real providers "
+       "follow the same traffic with random write / write+reload / crash points and a never-reloaded twin; every component of the loaded group is compared with the written "
+       "one and with the twin; each repository operation is a row replayed on the compiled model (stored ids, availability).",
+  note="Trusted: Lean kernel, model validated by rows, harness. The byte-level snapshot round trip of the member state is C12's codec theorem + this check's component comparison; "
+       "the SQLite transaction is one atomic step (assumption).",
+  ref="DESIGN.md §4 C06/C19"),
+ "C19": dict(
+  technique="Lean 4 proof (exact retention window, right record, older gone) + late-message scenarios on both providers replayed on the model; sender-leaf oracle",
+  text="Theorems MlsVerif.Props.C19: after a write the available past epochs are exactly max(oldest, W+1-R) .. W (retention_exact), epochs entered since the last write are all "
+       "available (retention_with_pending), a lookup never returns another epoch's record (get_returns_right_record), older ones are gone from storage (older_gone). Tie: late "
+       "application messages of age 0..R+2 (fresh ciphertext each, R in {1,2,3,5}) delivered to subjects on both providers at random write/reload points: each verdict is a "
+       "`repo.get` row replayed on the model; direct oracle: a late message whose sender leaf was removed / reused by another member / re-identified is rejected, a re-keyed "
+       "sender with the same signature key is still attributed correctly.",
+  note="Trusted: Lean kernel, model validated by rows, harness. The sender rule (validate_sender_signature_key_from_prior_epoch) is checked by the oracle only. "
+       "Noted: SQLite accepts retention 0 and then keeps nothing (sql_ret_zero_keeps_nothing), the in-memory provider rejects 0.",
+  ref="DESIGN.md §4 C06/C19"),
 }
 PENDING_REASON = "check not built yet in this session (planned, see DESIGN.md §8); not claimed until its check exists"
 
